@@ -117,6 +117,23 @@ func c19JustifiedFor(c *core.Ctx, fn *core.Func, kind, callee string, depth int)
 	if why, ok := c19Justified[fn.Key+"|"+kind+"|"+callee]; ok {
 		return why, true
 	}
+	// a justification whose function no longer exists (it was folded into
+	// its caller) moves with its code: same kind of sink, same callee
+	if depth == 0 {
+		for k, why := range c19Justified {
+			parts := strings.SplitN(k, "|", 3)
+			if len(parts) != 3 || parts[1] != kind || parts[2] != callee {
+				continue
+			}
+			short := core.ShortPkg(fn.Pkg.PkgPath)
+			if !strings.HasPrefix(parts[0], short+".") {
+				continue
+			}
+			if c.Prog.FuncOpt(short, strings.TrimPrefix(parts[0], short+".")) == nil {
+				return why + " (the function " + parts[0] + " no longer exists; its code is taken to have moved here)", true
+			}
+		}
+	}
 	if depth >= 2 || fn.Obj.Exported() {
 		return "", false
 	}
